@@ -125,6 +125,7 @@ fn replay_inputs(file: &str, outp: &str) {
     let cutoff = NoCutoff;
     let mut lel: Mdd<St, { LAST_EXACT_LAYER }> = Mdd::new();
     let mut fc: Mdd<St, { FRONTIER }> = Mdd::new();
+    let mut pooled: Pooled<St> = Pooled::new();
     for i in inputs.iter() {
         let m = Model::from_json(&i["inst"]);
         let r = &i["root"];
@@ -153,6 +154,12 @@ fn replay_inputs(file: &str, outp: &str) {
                 lel.drain_cutset(|c| cs.push(c));
             }
             (lel.is_exact(), lel.best_value(), lel.best_exact_value())
+        } else if i["cut"] == "pooled" {
+            pooled.compile(&input).unwrap();
+            if ty == CompilationType::Relaxed && !pooled.is_exact() {
+                pooled.drain_cutset(|c| cs.push(c));
+            }
+            (pooled.is_exact(), pooled.best_value(), pooled.best_exact_value())
         } else {
             fc.compile(&input).unwrap();
             if ty == CompilationType::Relaxed && !fc.is_exact() {
